@@ -238,6 +238,16 @@ def cases(tier, seed):
             if tier == 'quick' and n == 3 and i % 4:
                 continue
             yield {'kind': 'ranges', 'n': n, 'final_nl': True, 'lists': b}
+    # ---- borrowed workload: the cases of C05 that use `filter` (line matchers over richer contents matchers and texts)
+    # are executed here with the M5 contract active; only M5 decides in this check
+    import json as _json
+    from vf.props import c05 as _c05
+    nb = 0
+    for k, c in enumerate(_c05.cases(tier, seed)):
+        if 'filter' in _json.dumps(c.get('items', '')):
+            nb += 1
+            if tier == 'thorough' or nb % 6 == 0:
+                yield {'kind': 'borrow', 'case': c}
     rng = common.rng_for(seed, ID)
     # ---- one filter (one instruction, one transformer object) applied to SEVERAL texts of different lengths -------
     n_multi = 150 if tier == 'quick' else 2500
@@ -297,6 +307,9 @@ def setup_worker(ctx):
     common.put_repo_first_on_path()
     from exactly_lib.impls.types.line_matcher import line_nums_interval
     monitor.wrap(line_nums_interval, 'interval_of_matcher', 'm5', post=_m5_post)
+    from vf.props import c05 as _c05
+    if hasattr(_c05, 'setup_worker'):
+        _c05.setup_worker(ctx)
 
 
 def teardown_worker(ctx):
@@ -397,9 +410,31 @@ def run_multi(case, ctx):
     return res
 
 
+def run_borrowed(case, ctx):
+    from vf import monitor
+    from vf.props import c05 as _c05
+    _M5_STATE['violations'] = []
+    calls0 = monitor.COUNTERS.get('m5.calls', 0)
+    try:
+        r = _c05.run_case(case['case'], ctx)
+    except Exception as ex:
+        return {'classes': [], 'viol': [], 'inconclusive': ['borrowed C05 case raised %r' % (ex,)]}
+    n = monitor.COUNTERS.get('m5.calls', 0) - calls0
+    ctx.count('c13.borrowed_cases_run')
+    ctx.count('c13.borrowed_m5_calls', n)
+    viol = [{'what': 'C13 (workload of C05) ' + m, 'detail': {'kind': 'm5', 'borrowed': True}}
+            for m in _M5_STATE['violations'][:3]]
+    _M5_STATE['violations'] = []
+    inconc = [mv['what'] for mv in monitor.take_violations()]
+    return {'classes': [('borrow-c05', 'm5-calls>0' if n else 'm5-calls=0')], 'viol': viol, 'inconclusive': inconc,
+            'evaluations': max(1, n)}
+
+
 def run_case(case, ctx):
     if case['kind'] == 'multi':
         return run_multi(case, ctx)
+    if case['kind'] == 'borrow':
+        return run_borrowed(case, ctx)
     from vf import monitor
     ses = ctx.get_session()
     n = case['n']
